@@ -46,6 +46,10 @@ def cycle(s, rng, i):
     s.chmod(U, True)
     s.tick(1)
     s.timeout()
+    # a restart with an entry still pending: the queue is loaded from a non-empty directory
+    s.put(B, "pending%d" % i)
+    s.write(3, B)
+    s.restart()
 
 
 def soak_script(rounds, seed):
